@@ -429,8 +429,9 @@ def r_margin(idx, rep, rule="R-MARGIN", floor=6):
     ok = False
     why = "Margin.aabb does not return array([lo - margin, hi + margin]).T of the inner box"
     if len(rets) == 1:
-        v = rets[0].value
-        if isinstance(v, ast.Attribute) and v.attr == "T" and isinstance(v.value, ast.Call) and v.value.args and isinstance(v.value.args[0], ast.List) \
+        from ..core.inline import expand_helpers
+        v = expand_helpers(idx, ab.module, rets[0].value, only=lambda c: c.name.startswith("_"))       # `_bounds_to_aabb(lo, hi)` reads as np.array((lo, hi)).T
+        if isinstance(v, ast.Attribute) and v.attr == "T" and isinstance(v.value, ast.Call) and v.value.args and isinstance(v.value.args[0], (ast.List, ast.Tuple)) \
                 and len(v.value.args[0].elts) == 2:
             lo, hi = [loc.get(u(e), e) for e in v.value.args[0].elts]
 
